@@ -79,6 +79,43 @@ def compiler_raised(ck):
                    rule="%d multi-rest shapes and %d controls x 4 positions" % (len(MULTI_REST), len(SINGLE_REST_CONTROLS)))
 
 
+ENTRY_DECL = """
+#[derive(Debug)] pub struct SE { pub a: i32, pub b: i32, pub s: String, pub xs: Vec<i32>, pub m: BTreeMap<String, i32>, pub o: Option<i32>, pub t: (i32, i32) }
+pub fn mk() -> SE { SE { a: 1, b: 2, s: "hello".to_string(), xs: vec![5, 6, 7], m: BTreeMap::from([("a".to_string(), 1), ("b".to_string(), 2)]), o: Some(3), t: (1, 2) } }
+"""
+# well-typed programs whose ONLY defect is a token the grammar has no place for; were that token dropped they would compile (and pass or fail at run time)
+ENTRY_MALFORMED = ['SE { a: 1, .., b: 99 }', 'SE { xs: #(5, .., 99), .. }', 'SE { m: #{ "a": 1, .., "b": 99 }, .. }', 'SE { s.starts_with("he" "llo-not"): true, .. }', 'SE { xs[0 1]: 5, .. }',
+                   'SE { a: 1 .. }', 'SE { o: Some(3 4), .. }', 'SE { xs: [5 6, ..], .. }', 'SE { a: 1, b: 2 c: 3, .. }', 'SE { t: (1, 2 3), .. }', 'SE { xs: #(5, 6, 7 8), .. }', 'SE { m: #{ "a": 1 2, .. }, .. }',
+                   'SE { xs.len() 0: 3, .. }', 'SE { a: > 0 1, .. }', 'SE { a: 1, .. } trailing', 'SE { a: 1, .. }, extra', '_ { a: 1, .., b: 99 }', 'SE { o: Some(3, ), b: 2 2, .. }', 'SE { a: == 1 2, .. }', 'SE { s: =~ "h" "x", .. }']
+ENTRY_CONTROLS = ['SE { a: 1, b: 2, .. }', 'SE { xs: #(5, ..), m: #{ "a": 1, .. }, .. }', 'SE { s.starts_with("he"): true, xs[0]: 5, .. }', '_ { a: 1, .. }']
+
+
+def malformed_compiled(ck):
+    """Malformed inputs through the macro AS INVOKED (rustc, the real proc-macro entry point in lib.rs, which the in-process harness does not
+    run): well-typed programs whose only defect is a token the grammar has no place for must not compile; the controls must."""
+    import e2e
+    import t3
+    proj = e2e.Project("c15entry")
+    progs = [(p_, False) for p_ in ENTRY_MALFORMED] + [(p_, True) for p_ in ENTRY_CONTROLS]
+    try:
+        for k, (pat, want) in enumerate(progs):
+            proj.add_bin("m%03d" % k, t3.HEADER + ENTRY_DECL + "fn main() {\n let v = mk();\n assert_struct!(v, %s);\n}\n" % pat)
+        res = proj.build(check_only=True)
+    finally:
+        proj.cleanup()
+    dist = {}
+    for k, (pat, want) in enumerate(progs):
+        r = res["m%03d" % k]
+        dist["%s: %s" % ("control" if want else "malformed", "compiles" if r["ok"] else "rejected")] = dist.get("%s: %s" % ("control" if want else "malformed", "compiles" if r["ok"] else "rejected"), 0) + 1
+        if not want and r["ok"]:
+            ck.report("accepted-by-the-macro-as-invoked:" + hexs(pat)[:40], "an input outside the grammar compiles when the macro is invoked for real: tokens the parser left unread were dropped instead of being reported",
+                      dict(invocation="assert_struct!(v, %s)" % pat))
+        elif want and not r["ok"]:
+            ck.report("entry-control-rejected:" + hexs(pat)[:40], "a well-formed control program of the entry-point family does not compile", dict(invocation="assert_struct!(v, %s)" % pat, rustc=[(d["code"], d["message"]) for d in r["diags"]][:3]), no_input=True)
+    ck.corr_record("T3 malformed inputs through the real entry point (well-typed programs whose only defect is a token the grammar has no place for: must not compile)",
+                   len(progs), len(progs), 0, dist, samples=[dict(invocation="assert_struct!(v, %s)" % progs[0][0])], exhaustive=True, rule="%d malformed programs + %d controls" % (len(ENTRY_MALFORMED), len(ENTRY_CONTROLS)))
+
+
 def run(ck):
     ck.prove(["AsModel.Theorems.C15", "AsModel.Theorems.C15Parse"])
     ck.build_harness("inproc")
@@ -142,5 +179,6 @@ def run(ck):
     ck.corr_record("T1 token retention (every accepted valid / mutated / random input: each identifier of the input must reappear in the parsed pattern)",
                    checked, checked, dropped, {"accepted_inputs": checked}, samples=[dict(invocation=inputs[0][1][:120])],
                    rule="the T1 input set (valid inputs, truncations, single-token edits, random sequences); accepted inputs only")
+    malformed_compiled(ck)
     ck.assumptions += ["the malformed classes are instantiated by construction (the instances are listed in checks/c15.py); the parser itself is tied differentially, its Lean model is a growth item"]
     compiler_raised(ck)
